@@ -32,6 +32,9 @@ structure Beh where
   whatever `add` says: a tower that recovers between two attempts of one back-off round -/
   once : Nat := 0
   onceAdd : AddMode := .garbage
+  /-- the tower accepts the connection but does not answer (until released): a retrier that
+  reaches it stays "running" -/
+  hold : Bool := false
 deriving Repr
 
 /-- `net::http::send_appointment`'s result, as the two callers distinguish it -/
@@ -64,6 +67,8 @@ structure St where
   /-- the tower's subscription is ahead of what the client has recorded (it handed out a receipt
   the client did not accept) -/
   ahead  : TowerId → Bool := fun _ => false
+  /-- a retrier that is running, blocked on a request the tower has not answered yet -/
+  running : TowerId → Bool := fun _ => false
   /-- tower ids in use: 0 .. n-1 -/
   n      : Nat := 0
 
@@ -163,8 +168,9 @@ def runRetrier (fuel : Nat) (s : St) (t : TowerId) (locs : List Loc) : St × Run
     | .transient => runRetrier fuel s1 t locs
     | r => (s1, r)
 
-/-- `Retrier::start` + the end of its task: what a retrier created with `locs` leaves behind -/
-def St.retry (s : St) (t : TowerId) (locs : List Loc) : St :=
+/-- `Retrier::start` + the end of its task: what a retrier created with `locs` leaves behind when
+the tower answers every request -/
+def St.retryRun (s : St) (t : TowerId) (locs : List Loc) : St :=
   if locs.isEmpty then s else
   match s.status t with
   | none => s
@@ -179,6 +185,22 @@ def St.retry (s : St) (t : TowerId) (locs : List Loc) : St :=
                 idle := fun x => if x = t then true else s1.idle x }
     | .permanentSub => s1.withClient (s1.client.setStatus t .subscriptionError)
     | .misbehaving => s1
+
+/-- does a retrier started now get stuck on an unanswered request? -/
+def St.parks (s : St) (t : TowerId) (locs : List Loc) : Bool :=
+  (s.beh t).hold && !(s.beh t).down && !locs.isEmpty &&
+    (match s.status t with
+     | some st => st ≠ .subscriptionError && st ≠ .misbehaving
+     | none => false)
+
+/-- `Retrier::start` up to the first request, which the tower holds -/
+def St.park (s : St) (t : TowerId) : St :=
+  { s with client := s.client.setStatus t .tempUnreachable,
+           running := fun x => if x = t then true else s.running x }
+
+/-- a retrier created with `locs` -/
+def St.retry (s : St) (t : TowerId) (locs : List Loc) : St :=
+  if s.parks t locs then s.park t else s.retryRun t locs
 
 def St.pendingOf (s : St) (t : TowerId) : List Loc :=
   match s.client.towers t with
@@ -228,7 +250,9 @@ def asked (acc : St) (t : TowerId) (l : Loc) : Bool :=
 
 def notifyTower (acc : St) (t : TowerId) (l : Loc) : St :=
   match hookTower acc t l with
-  | (s1, true) => (s1.consumeIf (asked acc t l) t).retry t (s1.pendingOf t)
+  | (s1, true) =>
+    -- a running retrier is simply handed the new locator
+    if acc.running t then s1 else (s1.consumeIf (asked acc t l) t).retry t (s1.pendingOf t)
   | (s1, false) => s1.consumeIf (asked acc t l) t
 
 /-- the handler over all towers -/
@@ -238,7 +262,7 @@ def St.notify (s : St) (l : Loc) : St :=
 /-! ### commands -/
 
 inductive Reply where
-  | ok | errConnection | errBody | errBadSig | errExpiry | errSlots | errStatus | errUnknown
+  | ok | errConnection | errBody | errBadSig | errExpiry | errSlots | errStatus | errUnknown | errBeingRetried
 deriving DecidableEq, Repr
 
 /-- the model iterates over tower ids `0 .. n-1` -/
@@ -268,6 +292,7 @@ def St.manualRetry (s : St) (t : TowerId) : St × Reply :=
   match s.status t with
   | none => (s, .errUnknown)
   | some st =>
+    if s.running t then (s, .errBeingRetried) else
     if s.idle t then
       -- the idle retrier is fed what is pending in the database
       ((s.wake t).retry t ((s.wake t).pendingOf t), .ok)
@@ -280,11 +305,13 @@ def St.abandon (s : St) (t : TowerId) : St × Reply :=
   | none => (s, .errUnknown)
   | some _ =>
     -- the manager forgets the (idle) retrier of a tower that is gone
-    ({ s with client := (s.client.removeTower t).1, idle := fun x => if x = t then false else s.idle x }, .ok)
+    ({ s with client := (s.client.removeTower t).1, idle := fun x => if x = t then false else s.idle x,
+              running := fun x => if x = t then false else s.running x }, .ok)
 
 /-- what a restart leaves before any retrier has run: summaries rebuilt from the file, every
 retrier gone -/
-def St.reloaded (s : St) : St := { s with client := s.client.reload, idle := fun _ => false }
+def St.reloaded (s : St) : St :=
+  { s with client := s.client.reload, idle := fun _ => false, running := fun _ => false }
 
 /-- a tower that comes back "temporary unreachable" gets a retrier -/
 def restartTower (acc : St) (t : TowerId) : St :=
@@ -292,6 +319,26 @@ def restartTower (acc : St) (t : TowerId) : St :=
 
 /-- SIGKILL + start -/
 def St.restart (s : St) : St := (List.range s.n).foldl restartTower s.reloaded
+
+/-- the tower answers the request it was holding as `m` would, and goes on answering like that -/
+def St.release (s : St) (t : TowerId) (m : AddMode) : St :=
+  let s1 : St := { s with beh := fun x => if x = t then { s.beh t with add := m, hold := false } else s.beh x }
+  if s.running t then
+    let s2 : St := { s1 with running := fun x => if x = t then false else s1.running x }
+    s2.retry t (s2.pendingOf t)
+  else s1
+
+/-- a revocation arrives while tower `t` refuses connections; before its retrier's next attempt
+the tower is back but holds every request: the retrier ends up running, blocked -/
+def St.holdAfter (s : St) (t : TowerId) (l : Loc) : St :=
+  let down : St := { s with beh := fun x => if x = t then { s.beh t with down := true, hold := true } else s.beh x }
+  (List.range s.n).foldl (fun acc x =>
+    if x = t then
+      match hookTower acc t l with
+      | (s1, start) =>
+        let s2 : St := { s1 with beh := fun y => if y = t then { s1.beh t with down := false } else s1.beh y }
+        if start then s2.retry t (s2.pendingOf t) else s2
+    else notifyTower acc x l) down
 
 inductive Ev where
   | register (t : TowerId)
